@@ -201,7 +201,8 @@ Init == /\ links \in InitDags
 Do(o) == LET a == Apply(St, o, Devs)
          IN /\ present' = a.s.present /\ rec' = a.s.rec /\ dir' = a.s.dir
             /\ UNCHANGED links
-Call(kind) == \E o \in Calls(St) : o.op = kind /\ Do(o)
+OpsOf(kind) == {o \in AllOps : o.op = kind}
+Call(kind)  == \E o \in OpsOf(kind) : IsCall(St, o) /\ Do(o)
 Pin         == Call("Pin")
 PinWithMode == Call("PinMode")
 Unpin       == Call("Unpin")
